@@ -12,6 +12,7 @@ def run(chk):
     from . import misc_contracts
     misc_contracts.input_payload_contract(chk, "C18")   # the contract of get_input_payload used at the wrapper's call site, against its body
     misc_contracts.error_from_exception_contract(chk, "C18")   # a FAILED outcome carries a string message whatever the exception was built from
+    misc_contracts.small_models(chk, "C18")   # constructors and accessors the larger contracts pass through
     wrapper_contracts.client_errors_wrapped(chk, "C18")
     wrapper_contracts.control_signals_not_exceptions(chk, "C18")
     wrapper_contracts.checkpoint_error_classification(chk, "C18")
